@@ -272,14 +272,22 @@ def miri_threads_engine(prop, tier, seed):
         plans.append(dict(wl_seed=seed * 1000 + i, nthreads=r.choice([2, 3, 3, 4]), nops=r.choice([2, 3]),
                           mode="firstuse" if i % 2 == 0 else "shared", fams=fams, miri_seeds=(i * per, i * per + per),
                           rate=r.choice([0.003, 0.01, 0.03, 0.1]), variants=variants))
+    for p in plans:
+        p["target"], p["grant"] = "x86_64", False
+    if not quick:
+        # thorough: the ARMv8-CE arm (detection granted, five intrinsics modelled) and the aarch64 soft arm under threads
+        for j in range(8):
+            plans.append(dict(wl_seed=seed * 1000 + 500 + j, nthreads=3, nops=2, mode="firstuse" if j % 2 == 0 else "shared",
+                              fams=[["aes128", "aes192", "aes256"][j % 3]] + [order[(nxt + j) % len(order)]], miri_seeds=(900 + j * 4, 904 + j * 4),
+                              rate=r.choice([0.01, 0.03]), variants="-", target="aarch64", grant=(j % 4 != 3)))
     t0 = time.time()
     with ThreadPoolExecutor(max_workers=max(1, 16 // per)) as ex:
-        results = list(ex.map(lambda p: threads_one("x86_64", p["wl_seed"], p["nthreads"], p["nops"], p["mode"], p["fams"], p["miri_seeds"], p["rate"], variants=p["variants"]), plans))
+        results = list(ex.map(lambda p: threads_one(p["target"], p["wl_seed"], p["nthreads"], p["nops"], p["mode"], p["fams"], p["miri_seeds"], p["rate"], grant=p["grant"], variants=p["variants"]), plans))
     orders = set()
     for x in results:
         orders.update(x["orders"])
     cov = {"mode": "threads (real std threads share instances, construct/clone/convert concurrently; Miri's seeded scheduler pre-empts inside cipher code; data-race, aliasing and bounds detection on)",
-           "target": TARGETS["x86_64"], "workloads": len(plans), "executions": sum(x["executions"] for x in results),
+           "targets": sorted(set(TARGETS[p["target"]] for p in plans)), "workloads": len(plans), "executions": sum(x["executions"] for x in results),
            "recorded_events": sum(x["events"] for x in results), "overlapping_invocation_pairs": sum(x["overlaps"] for x in results),
            "distinct_invocation_orders": len(orders), "first_use_race_executions": sum(x["first_use_raced"] for x in results),
            "preemption_rates": sorted(set(p["rate"] for p in plans)), "wall_s": round(time.time() - t0, 1)}
